@@ -188,3 +188,76 @@ theorem scanLines_range (text : List UInt8) : ∀ v ∈ scanLines text, 0 ≤ v 
   omega
 
 end UgoVerif.Proofs.Pos
+
+namespace UgoVerif.Proofs.Pos
+open UgoVerif.Go UgoVerif.Model
+
+theorem addLineL_mem {ls : List Int} {i : Nat} {size : Int} (h : ScanInv ls i size) (v : Int) :
+    v ∈ addLineL ls size ((i : Int) + 1) ↔ v ∈ ls ∨ (v = (i : Int) + 1 ∧ v < size) := by
+  have hne : ls ≠ [] := by
+    intro hnil; have := h.first; simp [hnil] at this
+  obtain ⟨l, hl⟩ := last_of_ne_nil hne
+  have hlm : l ∈ ls := List.mem_of_getLast? hl
+  have hli := (h.range l hlm).2
+  rw [addLineL_of_last hl]
+  by_cases hc : (i : Int) + 1 < size
+  · have : l < (i : Int) + 1 ∧ (i : Int) + 1 < size := by omega
+    simp [this]
+    constructor
+    · rintro (hv | hv)
+      · exact Or.inl hv
+      · exact Or.inr ⟨hv, by omega⟩
+    · rintro (hv | ⟨hv, _⟩)
+      · exact Or.inl hv
+      · exact Or.inr hv
+  · have : ¬ (l < (i : Int) + 1 ∧ (i : Int) + 1 < size) := by omega
+    simp [this]
+    intro hv _; omega
+
+/-- members of the scanned table: what was there, plus `j+1` for every newline byte at
+    absolute index `j` whose successor is still inside the text -/
+theorem scanFrom_mem (size : Int) (v : Int) :
+    ∀ (cs : List UInt8) (i : Nat) (ls : List Int), ScanInv ls i size →
+      (v ∈ scanFrom size cs i ls ↔
+        v ∈ ls ∨ ∃ j : Nat, cs[j]? = some 10 ∧ v = ((i + j : Nat) : Int) + 1 ∧ v < size) := by
+  intro cs
+  induction cs with
+  | nil => intro i ls _; simp [scanFrom]
+  | cons c cs ih =>
+    intro i ls h
+    simp only [scanFrom]
+    by_cases hc : c = 10
+    · simp only [hc, if_true]
+      rw [ih (i + 1) _ (scanInv_addLine h), addLineL_mem h]
+      constructor
+      · rintro ((hv | ⟨hv, hs⟩) | ⟨j, hj, hv, hs⟩)
+        · exact Or.inl hv
+        · exact Or.inr ⟨0, by simp, by simpa using hv, hs⟩
+        · exact Or.inr ⟨j + 1, by simpa using hj, by rw [hv]; omega, hs⟩
+      · rintro (hv | ⟨j, hj, hv, hs⟩)
+        · exact Or.inl (Or.inl hv)
+        · cases j with
+          | zero => exact Or.inl (Or.inr ⟨by simpa using hv, hs⟩)
+          | succ j => exact Or.inr ⟨j, by simpa using hj, by rw [hv]; omega, hs⟩
+    · simp only [hc, if_false]
+      rw [ih (i + 1) ls ⟨h.first, h.strict, fun v hv => by have := h.range v hv; omega, h.bound⟩]
+      constructor
+      · rintro (hv | ⟨j, hj, hv, hs⟩)
+        · exact Or.inl hv
+        · exact Or.inr ⟨j + 1, by simpa using hj, by rw [hv]; omega, hs⟩
+      · rintro (hv | ⟨j, hj, hv, hs⟩)
+        · exact Or.inl hv
+        · cases j with
+          | zero => simp at hj; exact absurd hj hc
+          | succ j => exact Or.inr ⟨j, by simpa using hj, by rw [hv]; omega, hs⟩
+
+theorem scanLines_mem (text : List UInt8) (v : Int) :
+    v ∈ scanLines text ↔
+      v = 0 ∨ ∃ j : Nat, text[j]? = some 10 ∧ v = (j : Int) + 1 ∧ v < (text.length : Int) := by
+  have h0 : ScanInv [0] 0 (text.length : Int) :=
+    ⟨by simp, by simp, by intro v hv; simp at hv; subst hv; simp, by intro v hv; simp at hv; left; exact hv⟩
+  unfold scanLines
+  rw [scanFrom_mem (text.length : Int) v text 0 [0] h0]
+  simp
+
+end UgoVerif.Proofs.Pos
